@@ -205,3 +205,190 @@ func (in *inliner) distributeStmt(tpkg *types.Package, info *types.Info, st ast.
 	}
 	return "if " + ct + " {\n" + with(t1) + "\n} else {\n" + with(t2) + "\n}", true
 }
+
+// planLocalSelectDistribute: the same choice held in a local instead of a helper,
+//
+//	x := A
+//	if COND { x = B }
+//	S1(x); S2(x)
+//
+// (A, B plain operands; x assigned nowhere else, its address never taken, used only by simple statements of the same
+// statement list behind the `if`; nothing in those statements assigns a variable COND reads) is
+// `if COND { S1(B) } else { S1(A) }; if COND { S2(B) } else { S2(A) }` without the local: "pick the usage map of the
+// address's family, then increment it" written with a variable.
+func planLocalSelectDistribute(p *Prog, in *inliner, plan *roundPlan) {
+	for _, pkg := range p.Pkgs {
+		info := pkg.TypesInfo
+		for _, file := range pkg.Syntax {
+			if strings.HasSuffix(p.Fset.Position(file.Pos()).Filename, "_test.go") {
+				continue
+			}
+			// uses of every object in this file (to know that the local is used nowhere else)
+			uses := map[types.Object]int{}
+			addrOf := map[types.Object]bool{}
+			ast.Inspect(file, func(n ast.Node) bool {
+				switch y := n.(type) {
+				case *ast.Ident:
+					if o := info.Uses[y]; o != nil {
+						uses[o]++
+					}
+				case *ast.UnaryExpr:
+					if y.Op == token.AND {
+						if id, ok := ast.Unparen(y.X).(*ast.Ident); ok {
+							if o := info.Uses[id]; o != nil {
+								addrOf[o] = true
+							}
+						}
+					}
+				}
+				return true
+			})
+			ast.Inspect(file, func(n ast.Node) bool {
+				var list []ast.Stmt
+				switch b := n.(type) {
+				case *ast.BlockStmt:
+					list = b.List
+				case *ast.CaseClause:
+					list = b.Body
+				}
+				for i := 0; i+2 < len(list); i++ {
+					def, isDef := list[i].(*ast.AssignStmt)
+					ifs, isIf := list[i+1].(*ast.IfStmt)
+					if !isDef || !isIf || def.Tok != token.DEFINE || len(def.Lhs) != 1 || len(def.Rhs) != 1 || !isPlainOperand(def.Rhs[0]) {
+						continue
+					}
+					xid, isId := def.Lhs[0].(*ast.Ident)
+					if !isId || ifs.Init != nil || ifs.Else != nil || len(ifs.Body.List) != 1 || !callFreeExceptMethods(ifs.Cond) {
+						continue
+					}
+					obj := info.Defs[xid]
+					set, isSet := ifs.Body.List[0].(*ast.AssignStmt)
+					if obj == nil || addrOf[obj] || !isSet || set.Tok != token.ASSIGN || len(set.Lhs) != 1 || len(set.Rhs) != 1 || !isPlainOperand(set.Rhs[0]) {
+						continue
+					}
+					if lid, ok := set.Lhs[0].(*ast.Ident); !ok || info.Uses[lid] != obj {
+						continue
+					}
+					if tv1, tv2 := info.TypeOf(def.Rhs[0]), info.TypeOf(set.Rhs[0]); tv1 == nil || tv2 == nil || !types.Identical(tv1, tv2) {
+						continue
+					}
+					// what COND reads
+					condObjs := map[types.Object]bool{}
+					ast.Inspect(ifs.Cond, func(m ast.Node) bool {
+						if id, ok := m.(*ast.Ident); ok {
+							if o := info.Uses[id]; o != nil {
+								condObjs[o] = true
+							}
+						}
+						return true
+					})
+					if condObjs[obj] {
+						continue
+					}
+					// the users: simple statements of this list behind the if
+					type user struct {
+						st  ast.Stmt
+						ids []*ast.Ident
+					}
+					var users []user
+					okAll, nUses := true, 0
+					for _, st := range list[i+2:] {
+						var ids []*ast.Ident
+						assigns := false
+						ast.Inspect(st, func(m ast.Node) bool {
+							switch y := m.(type) {
+							case *ast.Ident:
+								if info.Uses[y] == obj {
+									ids = append(ids, y)
+								}
+							case *ast.AssignStmt:
+								for _, l := range y.Lhs {
+									if id, ok := ast.Unparen(l).(*ast.Ident); ok {
+										o := info.Uses[id]
+										if o == nil {
+											o = info.Defs[id]
+										}
+										if o != nil && (condObjs[o] || o == obj) {
+											assigns = true
+										}
+									}
+								}
+							case *ast.IncDecStmt:
+								if id, ok := ast.Unparen(y.X).(*ast.Ident); ok && (condObjs[info.Uses[id]] || info.Uses[id] == obj) {
+									assigns = true
+								}
+							}
+							return true
+						})
+						if assigns {
+							okAll = false
+						}
+						if len(ids) == 0 {
+							continue
+						}
+						switch s := st.(type) {
+						case *ast.ExprStmt, *ast.IncDecStmt:
+						case *ast.AssignStmt:
+							if s.Tok == token.DEFINE {
+								okAll = false
+							}
+						default:
+							okAll = false
+						}
+						nUses += len(ids)
+						users = append(users, user{st, ids})
+					}
+					// every use is one of those (plus the assignment inside the if)
+					if !okAll || len(users) == 0 || uses[obj] != nUses+1 {
+						continue
+					}
+					a := in.text(def.Rhs[0].Pos(), def.Rhs[0].End())
+					b := in.text(set.Rhs[0].Pos(), set.Rhs[0].End())
+					cond := in.text(ifs.Cond.Pos(), ifs.Cond.End())
+					fe := in.file(def.Pos())
+					fe.edits = append(fe.edits, textEdit{start: in.off(def.Pos()), end: in.off(ifs.End()), text: ""})
+					for _, u := range users {
+						with := func(val string) string {
+							var eds []posEdit
+							for _, id := range u.ids {
+								eds = append(eds, posEdit{id.Pos(), id.End(), "(" + val + ")"})
+							}
+							return in.renderEdits(u.st.Pos(), u.st.End(), eds)
+						}
+						txt := "if " + cond + " {\n" + with(b) + "\n} else {\n" + with(a) + "\n}"
+						fe.edits = append(fe.edits, textEdit{start: in.off(u.st.Pos()), end: in.off(u.st.End()), text: txt})
+					}
+					plan.expanded = append(plan.expanded, "statements distributed over a two-valued local selector")
+					i++
+				}
+				return true
+			})
+		}
+	}
+}
+
+// callFreeExceptMethods: no function literal, no channel receive, and no call other than method calls and calls of
+// functions on plain operands (a test such as `ip.To4() == nil`): evaluating it again has no effect.
+func callFreeExceptMethods(e ast.Expr) bool {
+	ok := true
+	ast.Inspect(e, func(n ast.Node) bool {
+		switch y := n.(type) {
+		case *ast.FuncLit:
+			ok = false
+		case *ast.UnaryExpr:
+			if y.Op == token.ARROW {
+				ok = false
+			}
+		case *ast.CallExpr:
+			for _, a := range y.Args {
+				if !isPlainOperand(a) {
+					if _, isLit := ast.Unparen(a).(*ast.BasicLit); !isLit {
+						ok = false
+					}
+				}
+			}
+		}
+		return ok
+	})
+	return ok
+}
